@@ -1,6 +1,7 @@
 import WrglModel.Driver.Util
 import WrglModel.Model.Sorter
 import WrglModel.Model.SorterReuse
+import WrglModel.Model.SorterFault
 import WrglModel.Spec.Sorter
 import WrglModel.Gen.Facts
 open Lean
@@ -11,6 +12,20 @@ def jOutBlock (b : OutBlock) : Json :=
 
 def hasDupKeys (pk : List Nat) (rows : List Row) : Bool :=
   (distinctKeys pk rows).length != rows.length
+
+/-- all sublists (order kept) -/
+def sublistsOf {α : Type} : List α → List (List α)
+  | [] => [[]]
+  | a :: l => let r := sublistsOf l; r.map (a :: ·) ++ r
+
+/-- the inputs the output of a sorter may stand for when some `AddRow` calls returned the error of a
+    failed spill: every row whose `AddRow` returned nil, and any of the rows whose call returned the
+    error (the caller was told about those; the property does not say whether they count as added).
+    The first candidate is "all rows". With more than 4 failed calls only "all" and "none". -/
+def faultCandidates (rows : List Row) (failed : List Nat) : List (List Row) :=
+  let subs := if failed.length ≤ 4 then sublistsOf failed else [failed, []]
+  subs.map (fun keep => (rows.zipIdx).filterMap (fun (r, i) =>
+    if failed.contains i && !keep.contains i then none else some r))
 
 def handleC19 (op : String) (input impl : Json) : Except String Json := do
   match op with
@@ -60,6 +75,67 @@ def handleC19 (op : String) (input impl : Json) : Except String Json := do
         (fldD v "rowBlocks" Json.null).compress == (fldD mv "rowBlocks" Json.null).compress &&
         (fldD v "spilled" Json.null).compress == (fldD mv "spilled" Json.null).compress
       else resClass impl == resClass mj)
+    return reply mj agree viol
+  | "sort-fault" =>
+    -- rows added while, for a stretch of them, no spill file can be created: the AddRow calls that
+    -- attempt a spill there return an error and the caller carries on. Every row whose AddRow returned
+    -- nil must come out (once per distinct key, in key order, in both outputs); the clauses are those
+    -- of "sort", evaluated against the rows accepted (see faultCandidates)
+    let pk ← asNatList (← fld input "pk")
+    let removed ← asNatList (fldD input "removed" (Json.arr #[]))
+    let runSize ← natFld input "runSize"
+    let rows ← asRows (fldD input "rows" (Json.arr #[]))
+    let badFrom ← natFld input "badFrom" <|> pure 0
+    let badLen ← natFld input "badLen"
+    let bs := Facts.blockSize
+    let bad := fun (i : Nat) => decide (badFrom ≤ i ∧ i < badFrom + badLen)
+    let m : Res Json :=
+      match addRowsF (refSort pk) Facts.addRowMaxCell runSize bad 0 { chunks := [], current := [], size := 0 } rows with
+      | .ok (st, failed) =>
+        let blks := sortedBlocks (refSort pk) bs pk removed st
+        let rbs := sortedRows (refSort pk) bs pk removed st
+        .ok (Json.mkObj [("blocks", Json.arr (blks.map jOutBlock).toArray),
+                         ("rowBlocks", Json.arr (rbs.map jRows).toArray),
+                         ("rowOffsets", jNats (List.range rbs.length)),
+                         ("spilled", jNat st.chunks.length), ("leftover", jNat 0),
+                         ("failed", jNats failed), ("failedRows", jNats failed)])
+      | .err e => .err e
+      | .panic p => .panic p
+    let mj := jRes id m
+    let dup := hasDupKeys pk rows
+    if resClass impl == "panic" then return reply mj false ["no-panic"]
+    if resClass impl != "ok" then
+      return reply mj (resClass impl == resClass mj) (if resClass mj == "err" then [] else ["unexpected-error"])
+    let v := fldD impl "val" Json.null
+    let blocks ← (← arrFld v "blocks").mapM fun b => do
+      return (← natFld b "offset", ← asRow (← fld b "pk"), ← asRows (← fld b "rows"))
+    let rowBlocks ← (← arrFld v "rowBlocks").mapM asRows
+    let leftover ← intFld v "leftover"
+    let failed1 ← asNatList (← fld v "failed")
+    let failed2 ← asNatList (← fld v "failedRows")
+    let failed := (failed1 ++ failed2).eraseDups
+    let brs := blocks.map (·.2.2)
+    let verdictFor := fun (acc : List Row) =>
+      (sortVerdict bs pk removed acc brs).map (fun s => "after-failed-spill:blocks:" ++ s) ++
+      (sortVerdict bs pk removed acc rowBlocks).map (fun s => "after-failed-spill:rows:" ++ s) ++
+      (if blockKeysOk bs (distinctKeys pk acc) (blocks.map (·.2.1)) then [] else ["after-failed-spill:block-key-is-first-row-key"])
+    let cands := faultCandidates rows failed
+    let vs := cands.map verdictFor
+    let contentViol := if vs.any (·.isEmpty) then [] else vs.headD []
+    let viol := contentViol ++
+      (if failed.all bad then [] else ["spill-error-only-when-the-spill-fails"]) ++
+      (if blocks.map (·.1) == List.range blocks.length then [] else ["block-offsets"]) ++
+      (if brs.flatten == rowBlocks.flatten then [] else ["outputs-agree"]) ++
+      (if leftover == 0 then [] else ["spill-files-removed"])
+    let agree :=
+      if resClass mj != "ok" then false else
+      let mv := fldD mj "val" Json.null
+      (fldD v "failed" Json.null).compress == (fldD mv "failed" Json.null).compress &&
+      (fldD v "failedRows" Json.null).compress == (fldD mv "failedRows" Json.null).compress &&
+      (fldD v "spilled" Json.null).compress == (fldD mv "spilled" Json.null).compress &&
+      (dup ||
+        ((fldD v "blocks" Json.null).compress == (fldD mv "blocks" Json.null).compress &&
+         (fldD v "rowBlocks" Json.null).compress == (fldD mv "rowBlocks" Json.null).compress))
     return reply mj agree viol
   | "sort-reuse" =>
     -- one sorter, several tables, `Reset` in between; an earlier use may have been abandoned with
